@@ -46,16 +46,16 @@ func c10Schedules(ck *Checker, rep *Report, opts *Options) {
 	if gobin == "" {
 		gobin = "go"
 	}
-	max := "40000"
+	max := "15000"
 	if opts.Tier == "thorough" {
-		max = "600000"
+		max = "300000"
 	}
 	cmd := exec.Command(gobin, "test", "-vet=off", "-count=1", "-v", "-timeout", "1500s", "-run", "TestZZVerifChanSchedules", "./chanrt/")
 	cmd.Dir = scratch
 	cmd.Env = append(os.Environ(), "VERIF_C10=1", "VERIF_C10_MAX="+max, fmt.Sprintf("VERIF_SEED=%d", opts.Seed), "GOFLAGS=-mod=mod", "GOWORK=off")
 	out, _ := cmd.CombinedOutput()
 	parseBounded(rep, string(out), "c10sched", 1, "channel-semantics-under-every-schedule",
-		"18 scenarios (unbuffered and capacity-1 channels; send-then-close vs one or two receives, two sends vs two receives from one or two threads, close vs receive, blocking select with one receive or one send case; at most 3 threads, 2 values): every interleaving at pthread mutex/cond granularity enumerated depth-first up to "+max+" schedules per scenario, then "+max+"/2 random schedules where the enumeration was cut off")
+		"28 scenarios (unbuffered and capacity-1 channels; send-then-close vs one or two receives, two sends vs two receives from one or two threads, close vs receive, blocking select with one receive or one send case, pairs of blocking selects that can only meet each other with and without nil-channel cases in both address orders; at most 3 threads, 2 values): every interleaving at pthread mutex/cond granularity enumerated depth-first up to "+max+" schedules per scenario, then "+max+"/2 random schedules where the enumeration was cut off")
 	var sc []string
 	for _, m := range regexp.MustCompile(`ZZSCEN (.*)`).FindAllStringSubmatch(string(out), -1) {
 		sc = append(sc, m[1])
